@@ -101,9 +101,50 @@ JoinScript(reader, wrapped) ==
 JoinFamily ==
     [n \in 1..(2 * Len(Readers)) |-> JoinScript(Readers[((n - 1) \div 2) + 1], (n % 2) = 0)]
 
-\* the family: all well-scoped scripts with at most k leaves (level 4: the join family)
+(***************************************************************************)
+(* The error family (level 5): a first failure F1 caught by an xor whose     *)
+(* handler H may itself contain tolerated or caught failures, followed by a  *)
+(* second failure F2, caught by an xor whose handler reports %last_error% /  *)
+(* :error: to a service, or left uncaught.  Everything runs on peer A; what  *)
+(* varies is the state of the two error descriptors when F2 happens.         *)
+(***************************************************************************)
+ErrLens(o) == [o |-> o, lens |-> <<FieldL("error_code")>>]
+Failing(tag) ==
+    << CallS("A", "e", tag \o "e", <<>>, ""),
+       [op |-> "fail", a |-> LitN(3), b |-> LitS("boom")],
+       MatchI("match", LitS("a"), LitS("b"), NullI),
+       MatchI("mismatch", LitS("a"), LitS("a"), NullI),
+       CallS("A", "t", tag \o "l", <<VarL("v", <<IdxL(7)>>)>>, "") >>
+Handlers ==
+    << NullI,
+       CallI("A", "h", <<ErrLens("err")>>, ""),
+       Bin("par", CallS("A", "e", "he", <<>>, ""), CallI("A", "h", <<>>, "")),
+       Bin("par", CallI("A", "h", <<>>, ""), [op |-> "fail", a |-> LitN(4), b |-> LitS("inner")]),
+       Bin("xor", CallS("A", "e", "he", <<>>, ""), NullI),
+       Bin("xor", MatchI("match", LitS("a"), LitS("b"), NullI), CallI("A", "h", <<ErrLens("lasterr")>>, "")),
+       Bin("seq", CallI("A", "h", <<>>, ""), Bin("par", NullI, CallS("A", "e", "he", <<>>, ""))) >>
+Reports ==
+    << CallI("A", "report", <<ErrLens("err"), ErrLens("lasterr")>>, ""),
+       [op |-> "fail", a |-> [o |-> "err", lens |-> <<>>], b |-> [o |-> "empty"]],
+       [op |-> "fail", a |-> [o |-> "lasterr", lens |-> <<>>], b |-> [o |-> "empty"]] >>
+ErrScript(f1, h, f2, rep) ==
+    Bin("seq", CallS("A", "l2", "v", <<>>, "v"),
+        Bin("seq", Bin("xor", f1, h),
+            Bin("seq", IF rep = 0 THEN f2 ELSE Bin("xor", f2, Reports[rep]),
+                CallI("A", "fin", <<ErrLens("err"), ErrLens("lasterr")>>, ""))))
+ErrorFamily ==
+    LET nf == Len(Failing("x"))  nh == Len(Handlers)  nr == Len(Reports) + 1
+        total == nf * nh * nf * nr IN
+    [n \in 1..total |->
+        LET a == (n - 1) % nf
+            b == ((n - 1) \div nf) % nh
+            c == ((n - 1) \div (nf * nh)) % nf
+            d == (n - 1) \div (nf * nh * nf) IN
+        ErrScript(Failing("p")[a + 1], Handlers[b + 1], Failing("q")[c + 1], d)]
+
+\* the family: all well-scoped scripts with at most k leaves (level 4: the join family, level 5: the error family)
 Family(k, level) ==
-    IF level = 4 THEN JoinFamily ELSE
+    IF level = 4 THEN JoinFamily ELSE IF level = 5 THEN ErrorFamily ELSE
     LET all == SelectSeq(UpTo(k, level), LAMBDA e : e.need = {}) IN [n \in 1..Len(all) |-> all[n].t]
 PeersOf(level) == IF level >= 3 THEN <<"A", "B", "C">> ELSE <<"A", "B">>
 EntryOf(script, level) == [script |-> script, init |-> "A", peers |-> PeersOf(level)]
